@@ -26,7 +26,10 @@ UPGRADES = ["websocket", "WebSocket", "h2c, websocket", "websocket2", "", None]
 CONNECTIONS = ["Upgrade", "upgrade", "keep-alive, Upgrade", "close", None]
 ACCEPTS = ["right", "wrong", None, "prev", "truncated", "padded", "caseswap"]
 SUBS = [(None, None), (None, ["chat"]), ("chat", ["chat"]), ("CHAT", ["chat", "superchat"]),
-        ("other", ["chat"]), ("chat", None), ("", ["chat"])]
+        ("other", ["chat"]), ("chat", None), ("", ["chat"]),
+        # the server selects ONE of the offered names: a list (even of offered names only) is not a selection
+        ("mqtt, chat", ["chat"]), ("chat,superchat", ["chat", "superchat"]), ("chat, chat", ["chat"]), ("chat,", ["chat"]),
+        (" chat", ["chat"]), ("superchat", ["chat", "superchat"])]
 
 
 def rands(rnd, n):
